@@ -20,6 +20,7 @@ from concurrent.futures import ProcessPoolExecutor
 
 from vlib import common, gen, c06_gen, c06_oracle, c06_spec_oracle, c07_lib, strictdec
 from vlib import convcases as cc
+from vlib import xmlgen
 
 PID = "C07"
 RL_TIMEOUT = 1200        # per shard of one run_lines call; the sizing below keeps every call far inside it
@@ -297,6 +298,27 @@ def run(ctx):
     # a sample of 40 documents (the 8-bit arithmetic is per document, not per content)
     step = 4 if quick else 2
     wdocs = wdocs[ctx.seed % step::step]
+    # XML-half-only documents (every run, full set of modes): raw CR / TAB / LF in text, attribute values and CDATA payloads,
+    # and CDATA payloads containing the characters that are markup outside a section (& < > ]]> and entity text).  They are
+    # converted here and do not take part in the WBXML half (parts A, A', C).
+    xsrcs = list(srcs)
+    xlangs = dict(langs)
+    extra = [] if getattr(ctx, "replay", None) else xmlgen.c07_cr_sources() + xmlgen.c07_cdata_sources()
+    lX = [cc.x2w_line(x, api="run", version=3, strtbl=1, keep=1, anon=0, dump=1) for _, _, x in extra]
+    aX, crX = common.run_lines(h01, lX, timeout=RL_TIMEOUT)
+    for cr in crX:
+        violations.append({"what": "crash-or-sanitizer-report", **cr})
+    n_extra = 0
+    for (kind, lid, x), a in zip(extra, aX):
+        d = cc.parse_answer(a)
+        if d is None or d["st"] != 0 or "out" not in d or d["out"] == "-":
+            bump("xml-half extra source refused by xml2wbxml")
+            continue
+        xsrcs.append((kind, lid, x))
+        xlangs[len(xsrcs) - 1] = lid
+        wdocs.append((len(xsrcs) - 1, (3, 1, 1, 0), bytes.fromhex(d["out"])))
+        n_extra += 1
+    first_extra = len(wdocs) - n_extra
     indents = [0, 1, 2, 3, 4, 8, 127, 128, 255] if quick else [0, 1, 2, 3, 4, 7, 8, 15, 16, 31, 32, 63, 64, 127, 128, 129, 254, 255]
     base_modes = [(0, 0, 0), (0, 0, 1), (2, 0, 0), (2, 0, 1), (0, 7, 1), (2, 9, 0)]
     modes = base_modes + [(1, i, k) for i in indents for k in (0, 1)]
@@ -305,12 +327,12 @@ def run(ctx):
     lB, kB = [], []
     for wi, (si, o, w) in enumerate(wdocs):
         if quick:
-            ms = modes if wi % 8 == 0 else base_modes + [(1, i, k) for i in (0, 1, 2, 255) for k in (0, 1)]
+            ms = modes if (wi % 8 == 0 or wi >= first_extra) else base_modes + [(1, i, k) for i in (0, 1, 2, 255) for k in (0, 1)]
         else:
             ms = all_modes if (wi % full_every == 0 and len(w) < 4000) else modes
         for g, i, k in ms:
             # the language is forced where the document does not identify it (anonymous, or no public id at all)
-            L = langs.get(si, 0)
+            L = xlangs.get(si, 0)
             force = L if (o[3] or not [l for l in tj["langs"] if l["id"] == L][0]["pub_text"]) else 0
             lB.append(cc.w2x_line(w, api="run", lang=force, gen=g, indent=i, keep=k, dump=1))
             kB.append((wi, (g, i, k)))
@@ -339,7 +361,7 @@ def run(ctx):
         kinds = {r[0] for r in res.values()}
         if kinds != {"ok"}:
             if len(kinds) > 1:
-                violations.append({"what": "xml-modes-differ-in-status", "wbxml_hex": w.hex(), "source_xml_hex": srcs[si][2].hex(),
+                violations.append({"what": "xml-modes-differ-in-status", "wbxml_hex": w.hex(), "source_xml_hex": xsrcs[si][2].hex(),
                                    "status_by_mode": {str(m): r[:2] for m, r in res.items()}})
             else:
                 bump("wbxml whose XML is refused / not parsed in every mode (C05)")
@@ -349,9 +371,14 @@ def run(ctx):
         for m, r in res.items():
             g, i, k = m
             want = base1 if (k == 1 or g == 2) else base0
+            if g == 2:
+                # canonical generation preserves CR / LF / TAB exactly (character references); compact generation leaves them
+                # to XML's line-end and attribute-value normalisation: compact = that normalisation applied to the canonical
+                # reading (theorem C07_xml_compact_equals_canonical_mod_eol); identity for documents without raw CR / TAB / LF
+                r = (r[0], r[1], xmlgen.c07_eol_norm(r[2]))
             if r != want:
                 okw = False
-                violations.append({"what": "xml-generation-mode-changes-meaning", "wbxml_hex": w.hex(), "source_xml_hex": srcs[si][2].hex(),
+                violations.append({"what": "xml-generation-mode-changes-meaning", "wbxml_hex": w.hex(), "source_xml_hex": xsrcs[si][2].hex(),
                                    "mode": {"gen": g, "indent": i, "keep_ws": k}, "compared_with": "compact keep-ws" if want is base1 else "compact trim",
                                    "difference": c07_lib.first_diff(want, r)})
                 break
@@ -398,7 +425,7 @@ def run(ctx):
                 "Sources = project corpus + documents synthesised from every language's tables (vlib/c06_gen.py, stream 7 of VERIF_SEED). "
                 "XML half: (WBXML document, generation mode, indent, keep-ws). Transcoding: (source, encoding).",
         "input_distribution": {"sources": len(srcs), "x2w_conv_object": len(lA), "x2w_withlen": len(lW), "w2x": len(lB), "transcoded": len(lC),
-                               "wbxml_documents_for_xml_half": len(wdocs), "indent_values": indents, "documents_with_all_256_indents": 0 if quick else sum(1 for wi, d in enumerate(wdocs) if wi % full_every == 0 and len(d[2]) < 4000), **stats},
+                               "wbxml_documents_for_xml_half": len(wdocs), "xml_half_extra_documents_raw_cr_and_cdata_markup": n_extra, "indent_values": indents, "documents_with_all_256_indents": 0 if quick else sum(1 for wi, d in enumerate(wdocs) if wi % full_every == 0 and len(d[2]) < 4000), **stats},
         "samples": [{"source": srcs[si][2][:200].decode("utf-8", "replace"), "options": o, "wbxml": (outs[(si, o)].hex()[:120] if isinstance(outs.get((si, o)), bytes) else outs.get((si, o)))}
                     for si in range(0, len(srcs), max(1, len(srcs) // 8)) for o in ((3, 1, 0, 0), (0, 0, 1, 1))][:12],
         "traces_validated_against_impl": evals,
